@@ -81,19 +81,36 @@ def main():
     if name and out.get('confirmed'):
         dst = os.path.join(VERIF, 'seeded', name)
         os.makedirs(dst, exist_ok=True)
-        shutil.copy(patch, os.path.join(dst, 'patch.diff'))
-        shutil.copy(demo, os.path.join(dst, 'demo.py'))
-        if os.path.exists(os.path.join(d, 'notes.md')):
-            shutil.copy(os.path.join(d, 'notes.md'), os.path.join(dst, 'notes.md'))
+        if os.path.abspath(d) != os.path.abspath(dst):
+            shutil.copy(patch, os.path.join(dst, 'patch.diff'))
+            shutil.copy(demo, os.path.join(dst, 'demo.py'))
+            if os.path.exists(os.path.join(d, 'notes.md')):
+                shutil.copy(os.path.join(d, 'notes.md'), os.path.join(dst, 'notes.md'))
         notes = ''
         if os.path.exists(os.path.join(d, 'notes.md')):
             notes = open(os.path.join(d, 'notes.md')).read()
+        old = {}
+        if os.path.exists(os.path.join(dst, 'meta.json')):
+            try:
+                old = json.load(open(os.path.join(dst, 'meta.json')))
+            except Exception:
+                old = {}
+        head = sh('git -C /repo rev-parse --short HEAD')[1].strip()
+        hist = old.get('history', [])
+        if not hist and old.get('verified_at'):
+            hist.append({'at': old['verified_at'], 'detected_by': old.get('detected_by', []),
+                         'kinds': {p: c.get('kinds', []) for p, c in old.get('checks', {}).items()}})
+        hist.append({'at': out['at'], 'repo_head': head, 'detected_by': out['detected_by'],
+                     'kinds': {p: c.get('kinds', []) for p, c in out['checks'].items()}})
         meta = {'breaks_property': prop, 'needs_to_manifest': notes[:1500],
                 'ran': ['git apply patch.diff on a scratch worktree of /repo HEAD',
                         'pytest (repo suite): ' + str(out['tests']),
                         'demo.py pristine rc=%s, patched rc=%s' % (out['demo_pristine_rc'], out['demo_patched_rc']),
                         'VERIF_REPO=<scratch> ./check <prop> --tier %s' % tier],
-                'checks': out['checks'], 'detected_by': out['detected_by'], 'verified_at': out['at']}
+                'checks': out['checks'], 'detected_by': out['detected_by'], 'verified_at': out['at'],
+                'repo_head': head, 'history': hist}
+        if old.get('strengthened'):
+            meta['strengthened'] = old['strengthened']
         json.dump(meta, open(os.path.join(dst, 'meta.json'), 'w'), indent=1)
         print('kept as', dst)
 
